@@ -164,6 +164,8 @@ def check_one(fcp: Any, s: Any, name: str, data: bytes, nodes: int) -> Tuple[Opt
         must_fail = False
     except refcodec.Truncated:
         must_fail = True
+    except UnicodeDecodeError:
+        must_fail = False  # corrupted text bytes: the input is malformed for another reason, no claim about truncation
     kind, res = decode_metered(fcp, name, data, nodes)
     if kind == "budget":
         return f"(b) decoding {len(data)} bytes exceeded the work bound ({res} steps)", must_fail
